@@ -599,8 +599,10 @@ pub struct GcBuilder<'gc, T: ?Sized, M = (), P = UnitPtrMeta> {
     ptr: GcPtr<T>,
     // The builder must be invariant in `T` (as `Gc` is): the allocation is registered for the `T`
     // named when the builder is created, and written with the `T` the builder has when it is
-    // completed. `GcPtr<T>` alone is covariant.
-    _marker: PhantomData<(Invariant<'gc>, *mut T, M, P)>,
+    // completed. `GcPtr<T>` alone is covariant. The same holds for `M` and `P`: the block is laid
+    // out, and its per-value metadata written, for the `P` the builder is created with, and read
+    // back through the `P` of the finished `Gc`.
+    _marker: PhantomData<(Invariant<'gc>, *mut T, *mut M, *mut P)>,
 }
 
 impl<'gc, T: ?Sized, M, P> Drop for GcBuilder<'gc, T, M, P> {
